@@ -76,13 +76,21 @@ def c19_clicks(ctx, plane, cunit, bare, sfunit, tdunit, td_bare, adjunit='Radian
             k = 1
         # the corrections are given as quantities displayed in another angular unit (same angle: re-displayed radians)
         AU = getattr(U, adjunit)
+        # ANOTHER sight of the same kind with other click sizes, calibrated and asked at the same distances and magnification just before: "for every sight"
+        other = p.Sight(plane, getattr(U, sfunit)(sf), cu(ch * 2), cu(cv * 3))
+        other.get_adjustment(tdq, U.Radian(drop) << AU, U.Radian(wind) << AU, mag)
         got = s.get_adjustment(tdq, U.Radian(drop) << AU, U.Radian(wind) << AU, mag)
+        # ... and the same sight asked again at another distance / magnification and then as before: the same answer
+        s.get_adjustment(getattr(U, tdunit)(td * 2), U.Radian(drop) << AU, U.Radian(wind) << AU, mag * 0.5)
+        again = s.get_adjustment(tdq, U.Radian(drop) << AU, U.Radian(wind) << AU, mag)
     tol = 1e-6 if kind == 'tan' else 1e-9
     ctx.check_eq('nominal_click_is_given', s.v_click_size.raw_value, rad_v, rel=1e-9)
     want_v = drop / (rad_v * k)
     want_h = wind / (rad_h * k)
     ctx.check_eq('vertical_clicks', got.vertical, want_v, rel=tol, abs=1e-12)
     ctx.check_eq('horizontal_clicks', got.horizontal, want_h, rel=tol, abs=1e-12)
+    ctx.check_eq('vertical_clicks', again.vertical, want_v, rel=tol, abs=1e-12, info={'call': 'again'})
+    ctx.check_eq('horizontal_clicks', again.horizontal, want_h, rel=tol, abs=1e-12, info={'call': 'again'})
     # sign and linearity follow from the quotient form; stated explicitly:
     ctx.check('sign_kept', ctx.implies(drop > 0, got.vertical > 0) & ctx.implies(drop < 0, got.vertical < 0)
               & ctx.implies(wind > 0, got.horizontal > 0) & ctx.implies(wind < 0, got.horizontal < 0))
